@@ -56,6 +56,7 @@ class Field:
     group: Optional[str] = None  # oneof name when card == 'oneof'
     key: Optional[str] = None  # key kind when card == 'map'
     proto_name: Optional[str] = None  # name in the .proto / descriptor when it differs from the Python name
+    opt_member: bool = False  # oneof member declared with optional=True as well (the plugin's pydantic style)
 
     @property
     def pname(self) -> str:
@@ -192,9 +193,11 @@ def _field_source_typing(f: Field) -> str:
         args.append("optional=True")
     if f.card == "oneof":
         args.append(f'group="{f.group}"')
+        if f.opt_member:
+            args.append("optional=True")
     if f.card == "repeated":
         ann = f"List[{elem}]"
-    elif f.card == "optional" and b != "wrap":
+    elif (f.card == "optional" or (f.card == "oneof" and f.opt_member)) and b != "wrap":
         ann = f"Optional[{elem}]"
     else:
         ann = elem
